@@ -96,7 +96,45 @@ fn main() {
                         2
                     }
                 },
-                _ => 2,
+                "C13" | "C14" | "C19" => {
+                    std::panic::set_hook(Box::new(|_| {}));
+                    let (kf, _) = rustharness::load_kf();
+                    let out = match prop.as_str() {
+                        "C13" => c13::replay_file(&v),
+                        "C14" => c14::replay_file(&v),
+                        _ => c19::replay_file(&v),
+                    };
+                    match out {
+                        None => {
+                            eprintln!("infrastructure: the description of the replay file could not be generated or built");
+                            2
+                        }
+                        Some((fails, tags)) => {
+                            let mut bad = false;
+                            for f in &fails {
+                                let known = kf.matches(&prop, &f.op, &f.outcome, &tags).map(|k| k.id.clone());
+                                println!("failure: op={} observed={} detail={} known={:?}", f.op, f.outcome, f.detail.chars().take(300).collect::<String>(), known);
+                                bad |= known.is_none();
+                            }
+                            if !fails.is_empty() {
+                                println!("tags: {}", tags.iter().cloned().collect::<Vec<_>>().join(" "));
+                            }
+                            if fails.is_empty() {
+                                println!("no failure: the recorded case passes");
+                            }
+                            if bad {
+                                println!("VIOLATION property={prop} replay={file}");
+                                1
+                            } else {
+                                0
+                            }
+                        }
+                    }
+                }
+                _ => {
+                    eprintln!("replay is not implemented for {prop}: the replay file holds the description text, the input and the observed behaviour");
+                    2
+                }
             }
         }
         Some("check") => {
